@@ -26,7 +26,7 @@ type replayOutcome struct {
 
 // nativeReplay runs the vectors in dir (all of one package) against /repo's
 // working tree with `go test -overlay`.
-func nativeReplay(pkgRel string, vecDir string, tier int, workDir string) (map[string]*replayOutcome, string, error) {
+func nativeReplay(pkgRel string, vecDir string, tier int, workDir string, race bool) (map[string]*replayOutcome, string, error) {
 	ov, _, err := harnessOverlay(false)
 	if err != nil {
 		return nil, "", err
@@ -87,7 +87,12 @@ func nativeReplay(pkgRel string, vecDir string, tier int, workDir string) (map[s
 	repl[filepath.Join(pkgDir, "zz_vf_replay_test.go")] = tf
 	ovJSON := filepath.Join(odir, "overlay.json")
 	writeJSON(ovJSON, map[string]interface{}{"Replace": repl})
-	cmd := exec.Command("go", "test", "-tags", "verif", "-vet=off", "-count=1", "-run", "^TestVfReplay$", "-v", "-overlay", ovJSON, "-timeout", "10m", "./"+pkgRel)
+	args := []string{"test", "-tags", "verif", "-vet=off", "-count=1", "-run", "^TestVfReplay$", "-v", "-overlay", ovJSON, "-timeout", "10m"}
+	if race {
+		args = append(args, "-race")
+	}
+	args = append(args, "./"+pkgRel)
+	cmd := exec.Command("go", args...)
 	cmd.Dir = repoDir
 	tn := "quick"
 	if tier > 0 {
@@ -106,6 +111,8 @@ func nativeReplay(pkgRel string, vecDir string, tier int, workDir string) (map[s
 		case strings.HasPrefix(l, "VFEND "):
 			cur = nil
 		case cur == nil:
+		case strings.Contains(l, "WARNING: DATA RACE"):
+			cur.fails = append(cur.fails, "C13.race-free")
 		case strings.HasPrefix(l, "VFFAIL "):
 			cur.fails = append(cur.fails, strings.TrimPrefix(l, "VFFAIL "))
 		case strings.HasPrefix(l, "VFREACH "):
@@ -119,6 +126,13 @@ func nativeReplay(pkgRel string, vecDir string, tier int, workDir string) (map[s
 			cur.panicM = strings.TrimPrefix(l, "VFPANIC ")
 		case strings.HasPrefix(l, "VFSKIP "):
 			cur.skipped = strings.TrimPrefix(l, "VFSKIP ")
+		}
+	}
+	if race && strings.Contains(string(out), "WARNING: DATA RACE") {
+		// one vector per process in race mode: the report may be printed after
+		// the VFEND line (stderr / stdout interleaving)
+		for _, o := range res {
+			o.fails = append(o.fails, "C13.race-free")
 		}
 	}
 	if len(res) == 0 && rerr != nil {
@@ -251,7 +265,28 @@ func finishCheck(prop, tierName string, tier, seed int, jobs []*job, tmp string,
 			names[v] = name
 			writeJSON(filepath.Join(vdir, name), v)
 		}
-		out, log, err := nativeReplay(pkgRel, vdir, tier, tmp)
+		var out map[string]*replayOutcome
+		var log string
+		var err error
+		if prop == "C13" {
+			// the race detector reports each racing pair of stacks once per
+			// process: one process per vector
+			out = map[string]*replayOutcome{}
+			for _, v := range vs {
+				one, _ := os.MkdirTemp(tmp, "vec1")
+				writeJSON(filepath.Join(one, names[v]), v)
+				o1, l1, e1 := nativeReplay(pkgRel, one, tier, tmp, true)
+				for k, x := range o1 {
+					out[k] = x
+				}
+				log += l1
+				if e1 != nil {
+					err = e1
+				}
+			}
+		} else {
+			out, log, err = nativeReplay(pkgRel, vdir, tier, tmp, false)
+		}
 		if err != nil {
 			fmt.Fprintf(os.Stderr, "REPLAY ERROR for %s: %v\n%s\n", pkg, err, tail(log, 3000))
 			replayLog += tail(log, 3000)
@@ -569,7 +604,7 @@ func replayMain(args []string) int {
 	vdir := filepath.Join(tmp, "vec")
 	os.MkdirAll(vdir, 0o755)
 	writeJSON(filepath.Join(vdir, "v0000.json"), &v)
-	out, log, err := nativeReplay(strings.TrimPrefix(v.Pkg, repoMod+"/"), vdir, 0, tmp)
+	out, log, err := nativeReplay(strings.TrimPrefix(v.Pkg, repoMod+"/"), vdir, 0, tmp, strings.Contains(v.Entry, "C13"))
 	if err != nil {
 		fmt.Fprintln(os.Stderr, err)
 		fmt.Fprintln(os.Stderr, log)
